@@ -2,6 +2,7 @@ package sim
 
 import (
 	"fmt"
+	"github.com/luno/workflow"
 	"sort"
 	"strconv"
 	"strings"
@@ -137,6 +138,25 @@ func (s *Sim) settle(g *Gen, emit func(Action, string)) (bool, error) {
 	return false, nil
 }
 
+// goneViolation: if a wait failed because process goroutines have exited for good, the C01 violation describing it.
+func goneViolation(s *Sim, err error) *report.Violation {
+	if err == nil || !strings.Contains(err.Error(), "did not come to rest") {
+		return nil
+	}
+	var dead []string
+	for name, st := range s.WF.States() {
+		if st == workflow.StateShutdown {
+			dead = append(dead, name)
+		}
+	}
+	if len(dead) == 0 {
+		return nil
+	}
+	sort.Strings(dead)
+	return &report.Violation{Property: "C01", Oracle: "recovers-to-failure-free-state", Signature: "process-gone-after-fault",
+		Detail: fmt.Sprintf("after the fault, process(es) %v terminated although the workflow is running: nothing will ever handle their events again (runs now: %v)", dead, s.finals().Runs)}
+}
+
 type recCase struct {
 	Cfg       string   `json:"cfg"`
 	FailFirst int      `json:"user_functions_fail_first"`
@@ -264,6 +284,9 @@ func RecoverySuite(seed uint64, tier string, res *report.Result, nomodel bool, c
 					if f != nil && j == f.j {
 						if f.lease {
 							if err := do(Action{Kind: "lease", Tok: a.Tok}); err != nil {
+								if v := goneViolation(s, err); v != nil {
+									return rec, s.finals(), []report.Violation{*v}, true, nil
+								}
 								return nil, finalState{}, nil, false, err
 							}
 						} else {
@@ -277,6 +300,9 @@ func RecoverySuite(seed uint64, tier string, res *report.Result, nomodel bool, c
 						a.Env.Faults[f.k2] = f.kind2
 					}
 					if err := do(a); err != nil && err != errNotEnabled {
+						if v := goneViolation(s, err); v != nil {
+							return rec, s.finals(), []report.Violation{*v}, true, nil
+						}
 						return nil, finalState{}, nil, false, err
 					}
 					last := f.j
@@ -289,6 +315,9 @@ func RecoverySuite(seed uint64, tier string, res *report.Result, nomodel bool, c
 				}
 			}
 			ok, err := s.settle(g, emit)
+			if v := goneViolation(s, err); v != nil {
+				return rec, s.finals(), []report.Violation{*v}, true, nil
+			}
 			if err != nil {
 				return nil, finalState{}, nil, false, err
 			}
@@ -347,6 +376,11 @@ func RecoverySuite(seed uint64, tier string, res *report.Result, nomodel bool, c
 					Replay: map[string]any{"suite": "sim-recovery", "case": rc}})
 			}
 			for _, v := range viols {
+				if v.Signature == "process-gone-after-fault" {
+					v.Replay = map[string]any{"suite": "sim-recovery", "case": rc}
+					res.Violate(v)
+					continue
+				}
 				if v.Property == "C01" || v.Property == "C05" || v.Property == "C14" {
 					v2 := v
 					v2.Property = "C01"
